@@ -21,9 +21,14 @@ import xml.parsers.expat
 from . import common, family as F
 from .common import cN, cstr, cbool, clist, copt
 
-THEOREMS = []
+THEOREMS = [
+    "decode_value", "reply_decodes", "decode_presentation_independent", "promote_preserves_infoset_partial",
+    "chars_chunking", "builtin_tags_match_statement",
+    "promote_capture_refuted", "nil_first_refuted", "whitespace_childless_refuted", "unprefixed_qname_refuted",
+    "nil_spelled_1_refuted",
+]
 
-PRE = "From SV Require Import Lib.Base Fam.Schema Gen.C02Tables C02.Model C02.Spec."
+PRE = "From SV Require Import Lib.Base Fam.Schema Gen.C02Tables C02.Model C02.Spec C02.Guard."
 
 ENV11 = F.SOAPENV
 ENV12 = "http://www.w3.org/2003/05/soap-envelope"
@@ -709,6 +714,55 @@ def names_literal(I):
                  "str * N")
 
 
+def directed_interface():
+    """The fixed interface of the `_refuted` witnesses of coq/C02/Props.v (type T
+    with a repeating nillable member, a nillable member of its own type and an
+    attribute; D derived from T in another namespace; wrapper W)."""
+    S = F.Schema([("urn:fam:ns0", True), ("urn:fam:ns1", True)])
+    el = F.Elem("l", 0, True, ("b", "int"), opt=True, multi=True, nillable=True)
+    ec = F.Elem("c", 0, True, ("n", 0, "T"), opt=True, nillable=True)
+    T_ = F.CType("T", 0, None, [F.Cont("sequence", False, [el, ec])], [F.Attr("k", "string")])
+    ex = F.Elem("x", 1, True, ("b", "string"), opt=True)
+    D_ = F.CType("D", 1, (0, "T"), [F.Cont("sequence", False, [ex])], [])
+    er = F.Elem("r", 0, True, ("n", 0, "T"), opt=True, nillable=True)
+    em = F.Elem("m", 0, True, ("n", 0, "T"), opt=True, multi=True, nillable=True)
+    W_ = F.CType("W", 0, None, [F.Cont("sequence", False, [er, em])], [])
+    S.types = [T_, D_, W_]
+    return S
+
+
+def directed_documents(I):
+    """(label, Body content, expected Coq pyval) — the witnesses of the known
+    quirks as concrete replies, plus one plain control."""
+    tT = "(Some (%s, %s))" % (cN(1), cN(I("T")))
+    tD = "(Some (%s, %s))" % (cN(2), cN(I("D")))
+    leaf = lambda tag, t: "(PLeaf %s %s)" % (cN(tag), cstr(t))     # noqa: E731
+    obj = lambda ty, fs: "(PObj %s %s)" % (ty, clist(["(%s, %s)" % (cstr(k), v) for k, v in fs], "str * pyval"))  # noqa
+    lst = lambda xs: "(PList %s)" % clist(xs, "pyval")              # noqa: E731
+    w = lambda inner, extra="": ('<op0Response xmlns="urn:fam:ns0"%s>%s</op0Response>' % (extra, inner))  # noqa
+    return [
+        ("control", w('<r k="v"><l>5</l><l xsi:nil="true"/></r>'),
+         obj("None", [("r", obj(tT, [("_k", leaf(0, "v")), ("l", lst([leaf(1, "5"), "PNone"]))]))])),
+        ("nil-first", w('<r><l xsi:nil="true"/><l>5</l></r>'),
+         obj("None", [("r", obj(tT, [("l", lst(["PNone", leaf(1, "5")]))]))])),
+        ("whitespace-in-childless", w('<r k="v">\n</r>'),
+         obj("None", [("r", obj(tT, [("_k", leaf(0, "v"))]))])),
+        ("prefix-rebinding", w('<r><l xmlns:t="urn:unrelated">1</l></r><m xsi:type="t:D"><x xmlns="urn:fam:ns1">a</x></m>'),
+         obj("None", [("r", obj(tT, [("l", lst([leaf(1, "1")]))])), ("m", lst([obj(tD, [("x", leaf(0, "a"))])]))])),
+        ("unprefixed-qname", w('<q:r xmlns="urn:fam:ns1" xsi:type="D"><x>a</x></q:r>', ' xmlns:q="urn:fam:ns0"'),
+         obj("None", [("r", obj(tD, [("x", leaf(0, "a"))]))])),
+        ("nil-spelled-1", w('<m xsi:nil="1"/><m><l>2</l></m>'),
+         obj("None", [("m", lst(["PNone", obj(tT, [("l", lst([leaf(1, "2")]))])]))])),
+        ("empty-complex", w('<r/>'),
+         obj("None", [("r", obj(tT, []))])),
+    ]
+
+
+def directed_envelope(body):
+    return ('<E:Envelope xmlns:E="%s" xmlns:xsi="%s" xmlns:t="urn:fam:ns1"><E:Body>%s</E:Body></E:Envelope>'
+            % (ENV11, F.XSI, body)).encode("utf-8")
+
+
 PROFILES = [
     # (name, weight, writer options)
     ("plain", 2, dict(plain=True)),
@@ -764,11 +818,31 @@ def run(ck):
 
     rng = ck.rng
     quick = ck.tier == "quick"
-    n_schemas = 40 if quick else 400
-    n_values = 2 if quick else 4
-    n_pres = 3 if quick else 6
+    n_schemas = 60 if quick else 300
+    n_values = 2 if quick else 3
+    n_pres = 4 if quick else 6
 
     cases, meta = [], []
+    # ---- the witnesses of coq/C02/Props.v replayed on the implementation
+    S = directed_interface()
+    wsdl = F.render_ops(S, [F.Op("op0", "wrapped", in_type=(0, "W"), out_type=(0, "W"))])
+    client = U.client_from_wsdl(wsdl)
+    for label, body, expected in directed_documents(F.new_interner()):
+        I = F.new_interner()
+        P = F.CoqPrinter(S, I)
+        P.schema()
+        tables = case_tables(S, I, T)
+        expected = [e for lb, _, e in directed_documents(I) if lb == label][0]
+        data = directed_envelope(body)
+        raw, info = raw_parse(data), U.expat_parse(data)
+        kind, r = run_impl(client, "op0", data)
+        impl = "(DOk %s)" % canon(T, r, dict(tables[1]), I) if kind == "ok" else kind
+        c = build_case(S, I, P, T, 0, S.types[2], raw_to_coq(raw), info_to_coq(info), expected, impl, tables)
+        cases.append(c.replace("NAMES", names_literal(I), 1))
+        meta.append(dict(wsdl=wsdl, op="op0", reply=data, profile="witness-" + label, result=repr(r)[:600],
+                         kind=kind, expected=expected, features=["witness"]))
+        ck.seen(("witness", label), nontrivial=True)
+        ck.count("witness-" + label)
     for si in range(n_schemas):
         S = F.gen_schema(rng)
         ops = [F.Op("op%d" % k, "wrapped", in_type=(t.ns, t.name), out_type=(t.ns, t.name))
@@ -822,9 +896,22 @@ def run(ck):
         ck.sample({"operation": meta[7]["op"], "reply": meta[7]["reply"].decode("utf-8")[:900],
                    "returned": meta[7]["result"][:400]})
 
-    preds = ["reply_agrees", "reply_spec_ok", "writer_ok", "infoset_agrees"] + \
+    preds = ["reply_agrees", "reply_spec_ok", "writer_ok", "infoset_agrees", "theorem_instance",
+             "fun c => negb (case_guard c)"] + \
             ["fun c => negb (has_flag %d%%N c)" % f for f in FLAGS]
+    import os
+    if os.environ.get("C02_GUARD_STATS"):
+        preds += [
+            "fun c => match case_wt c with Some wt => match flat_attrs (c_schema c) wt with [] => true | _ => false end | None => false end",
+            "fun c => match build (c_raw c) with [root] => consistent root | _ => false end",
+            "fun c => match build (c_raw c) with [root] => doc_ok [] (promote_node root) | _ => false end",
+            "fun c => match case_flags c with [] => true | _ => false end",
+            "fun c => match build (c_raw c) with [root] => match erase [] root with Some x => match spec_reply c with Some _ => match case_wt c with Some wt => match ref_reply (c_schema c) (c_names c) (c_uris c) (c_kinds c) (c_wq c) wt x with Some _ => true | None => false end | None => false end | None => true end | None => false end | _ => false end",
+        ]
     res = ck.run_cases("reply", PRE, "case", cases, preds, shard=40)
+    if os.environ.get("C02_GUARD_STATS"):
+        for p_ in preds[-5:]:
+            print("GUARDSTAT", len(res[p_]), p_[:90])
     judge(ck, cases, meta, res, proof_ok)
 
 
@@ -865,6 +952,12 @@ def judge(ck, cases, meta, res, proof_ok):
             i = res[pred][0]
             raise RuntimeError("self-check %s failed on case %d (a bug in the check, not a verdict):\n%s\nexpected %s"
                                % (pred, i, meta[i]["reply"].decode("utf-8"), meta[i]["expected"]))
+    ck.extra["cases_inside_theorem_guard"] = len(res["fun c => negb (case_guard c)"])
+    ck.extra["theorem_instance_failures"] = len(res["theorem_instance"])
+    if res["theorem_instance"]:
+        i = res["theorem_instance"][0]
+        raise RuntimeError("a proved theorem fails on an instance (case %d): the Coq development is inconsistent "
+                           "with its own evaluation\n%s" % (i, meta[i]["reply"].decode("utf-8")))
     spec_bad = set(res["reply_spec_ok"])
     debatable_seen = {}
     for i in sorted(spec_bad):
